@@ -18,7 +18,7 @@ def main():
     quick = chk.tier == "quick"
     toks = pegrun.tokens(chk.tier)
     wd = vlib.sub("c15")
-    trees, rows = pegrun.rendered_seeds(rnd, 120 if quick else 400, 3, wd)
+    trees, rows = pegrun.rendered_seeds(rnd, 120 if quick else 150, 3, wd)
     seeds = []
     cap = 2500 if quick else 6000
     for r in rows:
@@ -38,7 +38,7 @@ def main():
         seeds.append(pegrun.syms(t))
         seeds.append(pegrun.mutate(rnd, pegrun.syms(t)))
     uniq = pegrun.cheap(seeds, cap, wd)
-    world = pegrun.peg_world(toks, 2 if quick else 3, 1, uniq, later=pegrun.LATER if quick else pegrun.LATER[:12])
+    world = pegrun.peg_world(toks, 2 if quick else 3, 1, uniq, later=pegrun.LATER if quick else pegrun.LATER[:3])
     res = pegrun.run_peg(chk, "c15", world, shapes=False)
     chk.cov["evaluations"] = res["inputs"]
     chk.cov["distinct_nontrivial"] = res["byacc"].get("yes", 0) + res["byacc"].get("tree+error", 0)
